@@ -95,6 +95,10 @@ def generate(tier, rng):
                     m = int(np.prod(shp)) if shp else 1
                     cases.append(dict(stream="exact" if shp == rshape else "malformed", uni=u2, arr=tarr,
                                       steps=[dict(op="set", key=key, rhs=dict(kind="nd", shape=shp, values=[500 + j for j in range(m)]), mutate=True)]))
+                    # ... and the same whole numbers in an integer or single-precision array: the same shape rule
+                    cases.append(dict(stream="exact" if shp == rshape else "malformed", uni=u2, arr=tarr,
+                                      steps=[dict(op="set", key=key, rhs=dict(kind="nd", shape=shp, values=[500 + j for j in range(m)],
+                                                                              dtype=["int64", "float32", "int16"][(k + ki + len(shp)) % 3]), mutate=True)]))
                 # the same numbers handed over in an ndarray subclass or another memory layout: copied all the same
                 m = int(np.prod(rshape)) if rshape else 1
                 for sub in ("masked", "custom", "memory"):
